@@ -16,15 +16,34 @@ const PID: &str = "C17";
 
 type Line = (Vec<u8>, bool);
 
-fn canon(c: &Call) -> String {
+/// outcome of one call, compared by value (formatted only when a difference is reported)
+#[derive(Clone, PartialEq, Debug)]
+pub enum Out {
+    Done(Outcome),
+    Panic(String),
+}
+
+impl Out {
+    fn text(&self) -> String {
+        match self {
+            Out::Done(o) => o.canon(),
+            Out::Panic(l) => format!("PANIC:{}", l),
+        }
+    }
+    fn is_err(&self) -> bool {
+        matches!(self, Out::Done(Outcome::Err(_)))
+    }
+}
+
+fn canon(c: &Call) -> Out {
     match c {
-        Call::Done(o) => o.canon(),
-        Call::Panic(p) => format!("PANIC:{}", p.loc),
+        Call::Done(o) => Out::Done(o.clone()),
+        Call::Panic(p) => Out::Panic(p.loc.clone()),
     }
 }
 
 /// run a history on a fresh parser; returns canonical outcomes and the final state token
-fn run_hist(h: &[Line]) -> (Vec<String>, String) {
+fn run_hist(h: &[Line]) -> (Vec<Out>, String) {
     let mut p = Parser::new();
     let mut out = Vec::with_capacity(h.len());
     for (l, d) in h {
@@ -47,7 +66,7 @@ fn probes(ids: &[Option<u8>]) -> Vec<Line> {
 }
 
 /// outcome of each probe when appended (alone) after the history
-fn probe_outcomes(h: &[Line], ps: &[Line]) -> Vec<String> {
+fn probe_outcomes(h: &[Line], ps: &[Line]) -> Vec<Out> {
     ps.iter()
         .map(|(pl, pd)| {
             let mut p = Parser::new();
@@ -69,11 +88,11 @@ enum Inert {
 }
 
 /// which positions hold lines the statement declares inert (given what was observed)
-fn classify(h: &[Line], outs: &[String]) -> Vec<(Inert, &'static str)> {
+fn classify(h: &[Line], outs: &[Out]) -> Vec<(Inert, &'static str)> {
     let mut m = Reasm::new();
     let mut v = Vec::with_capacity(h.len());
     for ((l, d), o) in h.iter().zip(outs) {
-        let is_err = o.starts_with("E:");
+        let is_err = o.is_err();
         let sc = nmea_ref::scan(l);
         let stc = crate::reasm_ref::state_class(&m.st);
         let cls = match &sc {
@@ -101,12 +120,10 @@ fn classify(h: &[Line], outs: &[String]) -> Vec<(Inert, &'static str)> {
                     f.payload.len() > 384 || open + f.payload.len() > 384
                 };
                 let exp = m.expect(f.n, f.k, f.id, &f.payload);
-                let seen = if o.starts_with("C:") {
-                    Seen::Complete
-                } else if o.starts_with("I:") {
-                    Seen::Incomplete
-                } else {
-                    Seen::Err
+                let seen = match o {
+                    Out::Done(Outcome::Complete(_)) => Seen::Complete,
+                    Out::Done(Outcome::Incomplete(_)) => Seen::Incomplete,
+                    _ => Seen::Err,
                 };
                 let c = if f.n == 1 && f.k == 1 {
                     if over {
@@ -167,7 +184,7 @@ fn check_history(rep: &mut Report, h: &[Line], ps: &[Line], max_removals: usize,
             }
             let j2 = if j < i { j } else { j - 1 };
             if outs[j] != outs2[j2] {
-                differs = Some(format!("line {} returned {} with the inert line present and {} without it", j, outs[j], outs2[j2]));
+                differs = Some(format!("line {} returned {} with the inert line present and {} without it", j, outs[j].text(), outs2[j2].text()));
                 break;
             }
         }
@@ -176,7 +193,7 @@ fn check_history(rep: &mut Report, h: &[Line], ps: &[Line], max_removals: usize,
             let p2 = probe_outcomes(&h2, ps);
             for (k, (a, b)) in base_probes.iter().zip(p2.iter()).enumerate() {
                 if a != b {
-                    differs = Some(format!("probe {} ({}) returned {} after the history with the inert line and {} without it", k, crate::json::esc_bytes(&ps[k].0), a, b));
+                    differs = Some(format!("probe {} ({}) returned {} after the history with the inert line and {} without it", k, crate::json::esc_bytes(&ps[k].0), a.text(), b.text()));
                     probe_hit = "probe";
                     break;
                 }
@@ -277,8 +294,8 @@ fn inert_line(r: &mut Rng, open: &Option<(u8, u8, Option<u8>)>, ctr: u64) -> Lin
             let (n, k, id) = match open {
                 Some((n, k, id)) => match r.below(4) {
                     0 => (*n, *k, *id),
-                    1 => (n.saturating_add(1).max(*k + 2), *k + 2, *id),
-                    2 => (*n, *k + 1, Some(id.map_or(9, |x| (x + 1) % 10))),
+                    1 => (n.saturating_add(1).max(k.saturating_add(2)), k.saturating_add(2), *id),
+                    2 => (*n, k.saturating_add(1), Some(id.map_or(9, |x| (x % 10 + 1) % 10))),
                     _ => (*n, 0, *id),
                 },
                 None => (3, 2, Some(1)),
@@ -294,7 +311,7 @@ fn inert_line(r: &mut Rng, open: &Option<(u8, u8, Option<u8>)>, ctr: u64) -> Lin
 }
 
 fn random_histories(ctx: &Ctx, rep: &mut Report, r: &mut Rng) {
-    for _ in 0..ctx.budget(6_000, 300_000) {
+    for _ in 0..ctx.budget(1_500, 40_000) {
         let len = r.usize(4, 40);
         let mut h: Vec<Line> = Vec::new();
         let mut open: Option<(u8, u8, Option<u8>)> = None;
@@ -325,7 +342,7 @@ fn random_histories(ctx: &Ctx, rep: &mut Report, r: &mut Rng) {
             }
         }
         let ps = probes(&ids);
-        check_history(rep, &h, &ps, 6, r, "random");
+        check_history(rep, &h, &ps, 4, r, "random");
     }
 }
 
@@ -334,10 +351,10 @@ fn interleaved_instances(ctx: &Ctx, rep: &mut Report, r: &mut Rng) {
     for _ in 0..ctx.budget(1_500, 60_000) {
         let k = if r.bool() { 2 } else { 4 };
         let streams: Vec<Vec<Line>> = (0..k).map(|s| stream(r, s as u64)).collect();
-        let isolated: Vec<Vec<String>> = streams.iter().map(|s| run_hist(s).0).collect();
+        let isolated: Vec<Vec<Out>> = streams.iter().map(|s| run_hist(s).0).collect();
         let mut ps: Vec<Parser> = (0..k).map(|_| Parser::new()).collect();
         let mut pos = vec![0usize; k];
-        let mut got: Vec<Vec<String>> = vec![Vec::new(); k];
+        let mut got: Vec<Vec<Out>> = vec![Vec::new(); k];
         let round_robin = r.bool();
         let mut turn = 0usize;
         loop {
@@ -364,7 +381,7 @@ fn interleaved_instances(ctx: &Ctx, rep: &mut Report, r: &mut Rng) {
                 rep.violation(
                     PID,
                     "instances-influence-each-other".into(),
-                    format!("parser {} of {} fed an interleaved stream differs from its isolated run at line {}: {} vs {}", i, k, j, got[i][j], isolated[i][j]),
+                    format!("parser {} of {} fed an interleaved stream differs from its isolated run at line {}: {} vs {}", i, k, j, got[i][j].text(), isolated[i][j].text()),
                     || mon::replay_history(&streams[i], "interleaved"),
                 );
                 break;
@@ -422,7 +439,7 @@ pub fn run_threads(ctx: &Ctx, rep: &mut Report) {
     for round in 0..rounds {
         let k = if round % 2 == 0 { 4 } else { 8 };
         let streams: Vec<Vec<Line>> = (0..k).map(|s| stream(&mut r, s as u64)).collect();
-        let isolated: Vec<Vec<String>> = streams.iter().map(|s| run_hist(s).0).collect();
+        let isolated: Vec<Vec<String>> = streams.iter().map(|s| run_hist(s).0.iter().map(|o| o.text()).collect()).collect();
         let handles: Vec<std::thread::JoinHandle<Vec<String>>> = streams
             .iter()
             .cloned()
